@@ -325,8 +325,8 @@ def gen_session(rng, n_steps, faults=False, cancel=True, with_drop=False, pauses
 
 
 def gen_fragment_session(rng, n_steps, tricky=True):
-    """A random schedule inside the fragment of the refinement theorems (Props/C05.v c05_exec_refines): single echo requests
-    (plain words, arguments that need quoting, non-ASCII), changes, server reads, deliveries of any size, clock advances.
+    """A random schedule inside the fragment of the refinement theorems (Props/C05.v c05_exec_refines): single requests
+    (plain words, arguments that need quoting, non-ASCII; ACK and binary replies) and command lists of 1..5 of them, changes, server reads, deliveries of any size, clock advances.
     -> (labels, info, number of requests)"""
     labels = ["D0"]
     info = {"requests": {}, "cancelled": set(), "notified": [], "fault": None, "dropped": False}
@@ -348,6 +348,22 @@ def gen_fragment_session(rng, n_steps, tricky=True):
                 sp = spec(rng.choice(words), *[rng.choice(args) for _ in range(rng.choice([0, 0, 1, 2]))])
             else:
                 sp = spec("echo", f"r{rid}")
+            if rng.random() < 0.3:
+                # a command list (sent as one request; the server reads it line by line): 1..5 commands, some failing, some binary
+                sps = []
+                for j in range(rng.choice([1, 2, 2, 3, 5])):
+                    r3 = rng.random()
+                    if r3 < 0.12:
+                        sps.append(spec("fail", str(rng.choice([1, 2, 5, 50])), f"r{rid}_{j}"))
+                    elif r3 < 0.22:
+                        sps.append(spec("bin", str(rng.choice([0, 1, 3, 20])), f"r{rid}_{j}"))
+                    elif r3 < 0.6:
+                        sps.append(spec(rng.choice(words), *[rng.choice(args) for _ in range(rng.choice([0, 1, 2]))]))
+                    else:
+                        sps.append(spec("echo", f"r{rid}_{j}"))
+                labels.append(f"i{rid}:" + ",".join(sps))
+                info["requests"][rid] = ("i", sps)
+                continue
             labels.append(f"c{rid}:{sp}")
             info["requests"][rid] = ("c", [sp])
         elif r < 0.44:
